@@ -22,7 +22,11 @@ func c01Desired(r *Rng) []xwDesired {
 	ds := []xwDesired{}
 	for _, n := range c01RNames {
 		if r.Chance(1, 2) {
-			ds = append(ds, xwDesired{RName: n, Kind: c01KindOf[n], Content: r.Intn(3), Ready: r.Chance(3, 4)})
+			d := xwDesired{RName: n, Kind: c01KindOf[n], Content: r.Intn(3), Ready: r.Chance(3, 4)}
+			if r.Chance(1, 12) {
+				d.Content = xwInvalidContent // the API server will reject this one as invalid
+			}
+			ds = append(ds, d)
 		}
 	}
 	return ds
@@ -68,6 +72,9 @@ func c01Gen(r *Rng) xwScn {
 	n := r.Range(1, 3)
 	for i := 0; i < n; i++ {
 		rd := xwRound{Desired: c01Desired(r)}
+		if r.Chance(1, 4) {
+			rd.Ver = Pick(r, []string{"v2", "v1beta1"})
+		}
 		if r.Chance(1, 2) {
 			rd.Fault = &xwFault{K: r.Intn(14), O: Pick(r, []string{"fail", "conflict", "crashBefore", "crashAfter"})}
 		}
@@ -77,9 +84,9 @@ func c01Gen(r *Rng) xwScn {
 		s.Rounds = append(s.Rounds, rd)
 	}
 	// fault-free rounds to quiescence with the last desired state
-	last := s.Rounds[len(s.Rounds)-1].Desired
+	last := s.Rounds[len(s.Rounds)-1]
 	for i := 0; i < 3; i++ {
-		s.Rounds = append(s.Rounds, xwRound{Desired: last})
+		s.Rounds = append(s.Rounds, xwRound{Desired: last.Desired, Ver: last.Ver})
 	}
 	return s
 }
@@ -105,7 +112,7 @@ func c01Run(s *xwScn) (c01Obs, []Mon) {
 	n := len(s.Rounds)
 	steady := n >= 3 && s.Rounds[n-1].Fault == nil && s.Rounds[n-2].Fault == nil && s.Rounds[n-3].Fault == nil &&
 		s.Rounds[n-1].FnErr == "" && s.Rounds[n-2].FnErr == "" && mustJSON(s.Rounds[n-1].Desired) == mustJSON(s.Rounds[n-2].Desired) &&
-		mustJSON(s.Rounds[n-2].Desired) == mustJSON(s.Rounds[n-3].Desired)
+		mustJSON(s.Rounds[n-2].Desired) == mustJSON(s.Rounds[n-3].Desired) && s.Rounds[n-1].Ver == s.Rounds[n-2].Ver && s.Rounds[n-2].Ver == s.Rounds[n-3].Ver
 	if steady && !obs.Quiescent && obs.Rounds[n-1].Result == "success" && obs.Rounds[n-2].Result == "success" {
 		diff := ""
 		for k, v := range before {
